@@ -1,4 +1,6 @@
 import OdcGeo.Model.C08
+import OdcGeo.Model.C08Args
+import OdcGeo.Model.C02
 namespace OdcGeo.C08.Drv
 open OdcGeo OdcGeo.IO OdcGeo.C08
 
@@ -47,6 +49,70 @@ def parseRes? (s : String) : Option ResArg :=
 
 def fmtGeoBox (g : GeoBox) : String := s!"{g.ny} {g.nx} {fmtAff g.affine}"
 
+/-! ### public argument forms (`Model/C08Args.lean`); CRS values are natural numbers, `0` = `"epsg:4326"` -/
+
+def fmtResA {α} (f : α → String) : ResA α → String
+  | .ok a => f a
+  | .error e => e.toStr
+
+/-- `k` (unknown hashable value), `u` (unhashable value), otherwise an `AnchorArg` token -/
+def parseAnchorForm? (s : String) : Option AnchorForm :=
+  if s = "k" then some .badKey
+  else if s = "u" then some .unhashable
+  else (parseAnchor? s).map .arg
+
+/-- `N`, `n:<q>` (number), `s2:<ny>;<nx>` (Shape2d), `xy:<x>;<y>` (XY), `q:[a,b,…]` (sequence), `o` (other) -/
+def parseShapeForm? (s : String) : Option ShapeForm :=
+  match s.splitOn ":" with
+  | ["N"] => some .none
+  | ["o"] => some .other
+  | ["n", q] => (parseRat? q).map .num
+  | ["s2", p] =>
+    match (p.splitOn ";").mapM parseInt? with
+    | some [ny, nx] => some (.shape2d ny nx)
+    | _ => none
+  | ["xy", p] => (parsePt? p).map fun q => .xy q.1 q.2
+  | ["q", l] => (parseList? parseRat? l).map .seq
+  | _ => none
+
+/-- `N`, `n:<q>` (number), `r:<rx>;<ry>` (Resolution), `o` (other) -/
+def parseResForm? (s : String) : Option ResForm :=
+  match s.splitOn ":" with
+  | ["N"] => some .none
+  | ["o"] => some .other
+  | ["n", q] => (parseRat? q).map .num
+  | ["r", p] => (parsePt? p).map fun q => .res q.1 q.2
+  | _ => none
+
+/-- `t:[v,…]` (tuple / list of any length), `b:[l,b,r,t]:<crs|N>` (BoundingBox) -/
+def parseRegion? (s : String) : Option (RegionForm Nat) :=
+  match s.splitOn ":" with
+  | ["t", l] => (parseList? parseRat? l).map .tuple
+  | ["b", l, c] => do
+    let vals ← parseList? parseRat? l
+    let c ← parseOpt? parseNat? c
+    match vals with
+    | [l, b, r, t] => some (.bbox ⟨l, b, r, t⟩ c)
+    | _ => none
+  | _ => none
+
+/-- `N`, `F` (falsy), `U` (a `utm…` string), `c:<n>` -/
+def parseCrsForm? (s : String) : Option (CrsForm Nat) :=
+  match s.splitOn ":" with
+  | ["N"] => some .none
+  | ["F"] => some .falsy
+  | ["U"] => some .utm
+  | ["c", n] => (parseNat? n).map .given
+  | _ => none
+
+def parsePolyCrs? (s : String) : Option (PolyCrsForm Nat) :=
+  match s.splitOn ":" with
+  | ["N"] => some .unset
+  | ["c", n] => (parseNat? n).map .given
+  | _ => none
+
+def fmtGeoBoxC (g : GeoBoxC Nat) : String := s!"{fmtGeoBox g.gb} {g.crs}"
+
 def run (args : List String) : Option String :=
   match args with
   | ["anchor", a] => do
@@ -57,6 +123,17 @@ def run (args : List String) : Option String :=
     let tight ← parseBool? tight; let shape ← parseShape? shape; let res ← parseRes? res
     let anchor ← parseAnchor? anchor; let tol ← parseRat? tol
     pure (fmtRes fmtGeoBox (fromBbox ⟨l, b, r, t⟩ tight shape res anchor tol))
+  | ["bboxacc", l, b, r, t, tight, shape, res, anchor, tol] => do
+    -- the public accessors of the result as modelled by C02: `.alignment`, `.boundingbox`
+    let l ← parseRat? l; let b ← parseRat? b; let r ← parseRat? r; let t ← parseRat? t
+    let tight ← parseBool? tight; let shape ← parseShape? shape; let res ← parseRes? res
+    let anchor ← parseAnchor? anchor; let tol ← parseRat? tol
+    pure (fmtRes (fun g =>
+      let h : C02.GeoBox := ⟨g.ny, g.nx, g.affine, 1⟩
+      let B := C02.boundingbox h
+      let al := fmtRes (fun (p : Rat × Rat) => s!"{fmtRat p.1} {fmtRat p.2}") (C02.alignment h)
+      s!"{al} | {fmtRat B.left} {fmtRat B.bottom} {fmtRat B.right} {fmtRat B.top}")
+      (fromBbox ⟨l, b, r, t⟩ tight shape res anchor tol))
   | ["bboxutm", l, b, r, t, A, tight, shape, res, anchor, tol] => do
     -- the utm shortcut with an affine stand-in `A` for the projection
     let l ← parseRat? l; let b ← parseRat? b; let r ← parseRat? r; let t ← parseRat? t
@@ -72,6 +149,22 @@ def run (args : List String) : Option String :=
     match pts with
     | [] => none
     | p :: ps => pure (fmtRes fmtGeoBox (fromGeopolygon p ps res align shape tight anchor tol))
+  | ["forms", region, crs, A, ucrs, tight, shape, res, anchor, tol] => do
+    -- public argument forms of from_bbox; `A` / `ucrs`: affine stand-in for the utm projection and the CRS it reports
+    let region ← parseRegion? region; let crs ← parseCrsForm? crs
+    let A ← parseAff? A; let ucrs ← parseNat? ucrs
+    let tight ← parseBool? tight; let shape ← parseShapeForm? shape; let res ← parseResForm? res
+    let anchor ← parseAnchorForm? anchor; let tol ← parseRat? tol
+    pure (fmtResA fmtGeoBoxC (fromBboxCrs 0 A.apply ucrs region crs tight shape res anchor tol))
+  | ["polyargs", pts, pcrs, crs, A, res, align, shape, tight, anchor, tol] => do
+    let pts ← parseList? parsePt? pts
+    let pcrs ← parseOpt? parseNat? pcrs; let crs ← parsePolyCrs? crs; let A ← parseAff? A
+    let res ← parseRes? res; let align ← parseOpt? parsePt? align
+    let shape ← parseShape? shape; let tight ← parseBool? tight
+    let anchor ← parseAnchor? anchor; let tol ← parseRat? tol
+    match pts with
+    | [] => none
+    | p :: ps => pure (fmtRes fmtGeoBoxC (fromGeopolygonArgs 0 A.apply pcrs p ps res crs align shape tight anchor tol))
   | _ => none
 
 end OdcGeo.C08.Drv
